@@ -129,7 +129,8 @@ def main(argv=None):
         for req in getattr(mod, "REQUIRED", []):
             if not m["outcomes"].get(req) and not m["extra"].get(req):
                 problems.append("required outcome class never observed: " + req)
-    if problems:
+    if problems and not m.get("nviol"):
+        # the vacuity guards protect a "no violation" verdict; a run that found violations reports them instead
         sys.stderr.write("BROKEN: " + "; ".join(problems) + "\n")
         return 2
 
